@@ -90,6 +90,31 @@ impl<'r> SurfGen<'r> {
         let p = self.pat(depth);
         if p.contains(' ') && !p.starts_with('(') { format!("({p})") } else { p }
     }
+    /// One existential parameter: plain, or manifest `(binder as definition [: classifier])` with
+    /// the binder under zero to three field names, punned, annotated, or a parenthesized named
+    /// binder (the parser distributes `as` over leading names only).
+    fn exparam(&mut self) -> String {
+        if self.rng.chance(1, 3) {
+            return format!("({})", self.pat_ann(1));
+        }
+        self.feat("exists_manifest");
+        let mut binder = match self.rng.below(6) {
+            | 0 => format!("= {}", self.pick(&UPPER)),
+            | 1 => format!("({} : {})", self.var(), self.pick(&UPPER)),
+            | 2 => format!("({} = {})", self.pick(&FIELDS), self.var()),
+            | 3 => format!("(({}))", self.var()),
+            | _ => self.var(),
+        };
+        for _ in 0..self.rng.below(4) {
+            binder = if self.rng.chance(1, 5) { format!("{} = ({binder})", self.pick(&FIELDS)) } else { format!("{} = {binder}", self.pick(&FIELDS)) };
+        }
+        if self.rng.chance(1, 6) {
+            binder = format!("({binder})");
+        }
+        let classifier = if self.rng.chance(1, 2) { format!(" : {}", self.pick(&UPPER)) } else { String::new() };
+        let meta = if self.rng.chance(1, 8) { "@[opaque] " } else { "" };
+        format!("{meta}({binder} as {}{classifier})", self.ty(1))
+    }
     fn pat_ann(&mut self, depth: u32) -> String {
         if depth > 0 && self.rng.chance(1, 4) {
             format!("{} : {}", self.pat(depth - 1), self.ty(depth - 1))
@@ -151,7 +176,9 @@ impl<'r> SurfGen<'r> {
             }
             | 7 => {
                 self.feat("ty_exists");
-                format!("exists ({}) . {}", self.pat_ann(1), self.ty(depth - 1))
+                let n = 1 + self.rng.below(3);
+                let params: Vec<String> = (0..n).map(|_| self.exparam()).collect();
+                format!("exists {} . {}", params.join(" "), self.ty(depth - 1))
             }
             | 8 => {
                 self.feat("ty_data");
